@@ -843,6 +843,19 @@ func GenSelection(t *rapid.T, s *hx.Schema, typeName string, p Profile, label st
 }
 
 // GenDocLabeled is GenDoc with a label prefix so that several documents can be drawn in one rapid case.
+// GenWarm draws 0-2 earlier requests (valid documents over the same schema) for a case.
+func GenWarm(t *rapid.T, s *hx.Schema, p Profile) []WarmReq {
+	if rapid.IntRange(0, 3).Draw(t, "warm") != 0 {
+		return nil
+	}
+	var out []WarmReq
+	for i := 0; i < rapid.IntRange(1, 2).Draw(t, "nWarm"); i++ {
+		d, vars := genDocPrefixed(t, s, p, false, fmt.Sprintf("warm%d", i))
+		out = append(out, WarmReq{Text: d.Render(hx.Layout{Mode: "single"}).Text, Op: d.Ops[0].Name, Vars: vars})
+	}
+	return out
+}
+
 func GenDocLabeled(t *rapid.T, s *hx.Schema, p Profile, multiOp bool, prefix string) (*hx.Doc, []hx.KV) {
 	return genDocPrefixed(t, s, p, multiOp, prefix)
 }
